@@ -269,6 +269,9 @@ def instances(tier):
            Inst("out_of_service_load", make_pq("out_of_service"), nvars=30, samples=2, meta=dict(transformation="add out-of-service element")),
            Inst("parallel_lines", make_lines("parallel"), nvars=24, samples=2, meta=dict(transformation="parallel=2 vs two lines")),
            Inst("swap_line", make_lines("swap"), nvars=24, samples=2, meta=dict(transformation="from/to swap"))]
+    from . import c01
+    out.append(Inst("fused_buses_voltage_dependent_loads", c01.make_demand(True), nvars=48, samples=2, raises=(ValueError,),
+                    meta=dict(transformation="buses fused by a closed bus-bus switch", note="ZIP loads on both fused buses: the solver's demand at the fused bus is the sum of the elements' demands")))
     for kind in ("out_of_service_bus", "open_switch"):
         out.append(Inst(f"swap_line_at_{kind}", make_swap_topology(kind), nvars=16, samples=2, raises=(UserWarning,),
                         meta=dict(transformation="from/to swap", topology=kind)))
